@@ -42,6 +42,7 @@ pub fn gen(rng: &mut Rng, tier: Tier, idx: u64) -> Case {
     let (script, tail) = gen_read_script(rng, 64, 100, &[]);
     c.read_script = script;
     c.read_tail = tail;
+    c.reader_style = rng.below(3) as u8;
     c
 }
 
@@ -58,6 +59,9 @@ fn run_g<C: Codec>(c: &Case, trace: bool) -> RunOut {
     out.nontrivial = mals.len() >= 3;
     out.evals = 1;
     for m in mals {
+        if m.expect == Expect::RefOnly {
+            continue;
+        }
         let stream = Rc::new(m.frame.clone());
         let b = fe_block::<C>(&stream);
         let ar = run_a::<C>(&stream, &c.read_script, c.read_tail, &[], trace, &mut out);
@@ -66,6 +70,7 @@ fn run_g<C: Codec>(c: &Case, trace: bool) -> RunOut {
         for (name, fe) in [("B", &b), ("A", &ar.fe), ("P", &pr.fe)] {
             let (ok, want) = match (&m.expect, name) {
                 (Expect::All(t), _) => (matches!(fe, Fe::Err { e, .. } if C::norm(e).text == *t), t.clone()),
+                (Expect::RefOnly, _) => (true, String::new()),
                 (Expect::Crossing, "B") => (matches!(fe, Fe::Incomplete), "Ok(None)".to_string()),
                 (Expect::Crossing, "A") => (matches!(fe, Fe::Err { e, .. } if C::norm(e).eof), "an error recognised by is_eof()".to_string()),
                 (Expect::Crossing, _) => (
